@@ -18,6 +18,7 @@ import (
 type verifItem struct {
 	Kind string `json:"kind"`
 	Val  string `json:"val"`
+	Tag  string `json:"tag"`
 }
 
 type verifReplayDoc struct {
@@ -572,3 +573,14 @@ func verifNow() time.Time {
 	return time.Now()
 }
 func verifSince(t time.Time) time.Duration { return verifNow().Sub(t) }
+
+// verifMaybeUnencodable: a value encoding/json refuses, exactly when the solver's run has the JSON encoder fail
+// (environment record "json.Encode fails"); nil otherwise. Lets fault paths of the encoder be replayed natively.
+func verifMaybeUnencodable() any {
+	for _, it := range verifDoc.Vector {
+		if it.Kind == "ext-fail" && it.Tag == "json.Encode fails" {
+			return make(chan int)
+		}
+	}
+	return nil
+}
